@@ -7,6 +7,7 @@ CONSTANTS
   MaxFaults = 1
   AllowCrash = FALSE
   AllowEmptyLeftover = FALSE
+  AllowTornRmdir = FALSE
   CombinerClearsQueueOnFailedFlush = TRUE
   Hash <- HashId
   ReaderReportsHunks = TRUE
